@@ -109,12 +109,17 @@ def jsonable(o, depth=0):
 # --------------------------------------------------------------------------- known findings
 
 def load_known(prop):
-    try:
-        with open(KNOWN_FILE) as f:
-            data = json.load(f)
-    except FileNotFoundError:
-        return []
-    return [e for e in data.get('findings', []) if e.get('property') == prop]
+    """known_findings.json is the committed list; known_findings.d/<prop>.json is the same format, used while
+    a property's check is being built (merged into the main file by tools/merge_known.py)."""
+    out = []
+    for path in (KNOWN_FILE, os.path.join(ROOT, 'known_findings.d', prop + '.json')):
+        try:
+            with open(path) as f:
+                data = json.load(f)
+        except FileNotFoundError:
+            continue
+        out += [e for e in data.get('findings', []) if e.get('property') == prop]
+    return out
 
 
 def match_known(entries, key, fields):
